@@ -75,13 +75,14 @@ func checkChunks(c *core.Ctx) {
 									if hasRealUse(ut) {
 										discharging[ut] = true
 									}
-								case token.EQL:
+								case token.EQL, token.NEQ:
 									_, kx := ut.X.(*ssa.Const)
 									_, ky := ut.Y.(*ssa.Const)
+									_, eq, _ := core.EqCond(ut)
 									if (kx || ky) && ut.Referrers() != nil {
 										for _, rr := range *ut.Referrers() {
-											if iff, ok := rr.(*ssa.If); ok && len(iff.Block().Succs[0].Preds) == 1 {
-												dischargingBlocks[iff.Block().Succs[0]] = true
+											if iff, ok := rr.(*ssa.If); ok && len(iff.Block().Succs[eq].Preds) == 1 {
+												dischargingBlocks[iff.Block().Succs[eq]] = true
 											}
 										}
 									}
